@@ -457,7 +457,9 @@ func RunRebuild(s *Scen, r *vk.Rand, a, b int, bin, base string, cycles int) {
 	rr := vk.NewRand(r.U64())
 	for i, n := 0, r.Range(100, 600); i < n; i++ {
 		cl.WriteOnce(rr, 0, size/512)
-		if i%200 == 150 {
+		if i%200 == 150 && !(s.Prop == "C04" && (s.Case/100)%2 == 1) {
+			// (one of C04's workers keeps the chain free of snapshots between the checkpoint and the head: the
+			// snapshot taken when a replica rejoins is then the one directly above the checkpoint)
 			name := fmt.Sprintf("u%d", len(snaps))
 			if img, ok := s.userSnapshot(name, true); ok {
 				snaps["volume-snap-"+name+".img"] = img
@@ -484,6 +486,9 @@ func RunRebuild(s *Scen, r *vk.Rand, a, b int, bin, base string, cycles int) {
 		how := []string{"kill", "kill", "stop", "shortstop", "idlestopkill"}[r.Intn(5)]
 		if s.Prop == "C10" && cyc == 0 {
 			how = "shortstop"
+		}
+		if s.Prop == "C04" && cyc == 0 {
+			how = "kill" // the replica misses acknowledged writes and comes back on its old directory
 		}
 		if s.Prop == "C05" && cyc == 0 && (s.Case/100)%2 == 1 {
 			how = "idlestopkill"
@@ -600,6 +605,9 @@ func RunRebuild(s *Scen, r *vk.Rand, a, b int, bin, base string, cycles int) {
 			return
 		}
 		interrupt := (s.Case/100 + cyc*5 + r.Intn(2)*8) % 8 // every kind of interruption occurs across the workers of a run
+		if s.Prop == "C04" && cyc == 0 {
+			interrupt = 0 // a plain rejoin: the replica missed writes, is rebuilt once and then serves reads
+		}
 		srcKilled := false
 		if interrupt >= 6 {
 			// single file transfers fail: the ssync sender processes that feed the rebuilding replica are killed as
@@ -683,6 +691,31 @@ func RunRebuild(s *Scen, r *vk.Rand, a, b int, bin, base string, cycles int) {
 			}
 		}
 		_ = srcKilled
+		// C13: snapshot requests race with the end of the rebuild - refused while a replica is missing, the first one
+		// that is accepted lands in the window in which the controller already counts the rebuilt replica as RW while
+		// the replica itself is still finishing (its rebuilding flag is cleared last)
+		racedSnap := make(chan string, 1)
+		if s.Prop == "C13" {
+			go func(from int64) {
+				name := ""
+				defer func() { racedSnap <- name }()
+				deadline := time.Now().Add(60 * time.Second)
+				for time.Now().Before(deadline) && !x.LogHas("reloadAndVerify", from) {
+					time.Sleep(2 * time.Millisecond)
+				}
+				for i, end := 0, time.Now().Add(8*time.Second); time.Now().Before(end); i++ {
+					n := fmt.Sprintf("race%d-%d", cyc, i)
+					if _, err := cl.C.Snapshot(n); err == nil {
+						name = n
+						cl.event("snapshot %s accepted at the end of the rebuild of replica %d", n, x.Idx)
+						return
+					}
+					time.Sleep(300 * time.Microsecond)
+				}
+			}(x.LogSize())
+		} else {
+			racedSnap <- ""
+		}
 		// wait for x to be RW again (the supervisor restarts whatever exits)
 		if !cl.WaitRW(rf, 240*time.Second) {
 			ws.Stop()
@@ -691,6 +724,36 @@ func RunRebuild(s *Scen, r *vk.Rand, a, b int, bin, base string, cycles int) {
 		}
 		before := atomic.LoadInt64(&cl.AckedN)
 		_ = before
+		if n := <-racedSnap; n != "" {
+			// an accepted volume snapshot is in the chain of every replica that is RW
+			s.Res.Count("snapshots_raced_with_the_end_of_a_rebuild", 1)
+			disk := "volume-snap-" + n + ".img"
+			cl.gate.Lock()
+			modes := cl.Modes()
+			for _, p := range cl.Reps {
+				if modes[p.Addr] != types.RW {
+					continue
+				}
+				ri, err := GetRep(p.IP)
+				if err != nil {
+					continue
+				}
+				has := false
+				for _, c := range ri.Chain {
+					if c == disk {
+						has = true
+					}
+				}
+				if !has {
+					cl.gate.Unlock()
+					ws.Stop()
+					s.Fail([]string{"C13"}, "accepted-snapshot-missing-on-RW-replica:end-of-rebuild", fmt.Sprintf("snapshot %s was accepted while replica %d finished its rebuild; replica %d is RW but its chain %v does not contain it", n, x.Idx, p.Idx, ri.Chain))
+					return
+				}
+			}
+			cl.gate.Unlock()
+			snaps[disk] = nil
+		}
 		// rules over the sampled timeline
 		mon.mu.Lock()
 		bad := mon.bad
